@@ -164,6 +164,8 @@ C08 = dict(
         "c08_contiguous_length_step": H("quick", "inductive step of contiguous-length maintenance", "window w: all 2^15 patterns of blocks 0..14; update drop/start/length anywhere inside", "16-block window", rules=_BF_RULES, timeout=600, unwind=6, extra=UF),
     },
 )
+C08["mir"] = True
+C08["functions"] = C08["functions"] + ["MIR of hypercore::core::{append_batch,verify_and_apply_proof,new,clear} (contiguous-length maintenance on every path)"]
 PROPS["C08"] = C08
 
 # --------------------------------------------------------------------------------------------- C06
